@@ -59,9 +59,6 @@ structure St (α : Type) where
   ub : Bool := false
   /-- high precision of the current selected output (numtostr) -/
   hp : Bool := false
-  /-- a GET$ delivered more than 255 characters (the C code copies the stored string into a 256-byte buffer:
-  finding basic-gets-long-string; the model delivers the stored string) -/
-  longGets : Bool := false
 
 section Eval
 variable {α : Type} [BNum α]
@@ -371,9 +368,7 @@ def eval (hook : String → M α (Val α)) : Expr α → M α (Val α)
   | .getS a => fun s =>
     match evalInts hook a s with
     | .error e => .error e
-    | .ok (is, s1) =>
-      let v := lookupD s1.putS (keyOf is) "unknown"
-      .ok (.str v, if v.length > 255 then { s1 with longGets := true } else s1)
+    | .ok (is, s1) => .ok (.str (lookupD s1.putS (keyOf is) "unknown"), s1)
   | .instr a b => fun s =>
     match eval hook a s with
     | .error e => .error e
